@@ -344,6 +344,11 @@ def binop(ex, op, a, b, fr, inplace=False, node=None):
         return Val(Ty("str"), smt.STR.SCat(a.t, b.t))
     if a.ty.kind == "list" and b.ty.kind == "list" and op == "Add":
         return list_concat(ex, a, b)
+    if a.ty.kind == "list" and b.ty.kind == "int" and op == "Mult":
+        na = llen(ex, a)
+        j = z3.Int("j")
+        reps = z3.If(b.t > 0, b.t, 0)
+        return vlist(a.ty.args[0], na * reps, [z3.Lambda([j], _sel(x, j % na)) for x in larrs(ex, a)])
     if op == "BitOr" and (a.ty.kind in ("emptydict", "classmap") or (a.ty.kind == "ref" and a.ty.cls == "$ClassMap")) \
             and b.ty.kind == "classmap":
         # user map | built-in table: for keys present in both the right operand wins
